@@ -28,7 +28,7 @@ from pathlib import Path
 from harness import common
 
 CHILD = Path(__file__).resolve().parent / "c18_child.py"
-PLANS = [("S", 10), ("F3", 2), ("W4", 2), ("N2,5", 2), ("N3,2", 1), ("O", 2)]
+PLANS = [("S", 10), ("F3", 2), ("W4", 2), ("N2,5", 2), ("N3,2", 1), ("O", 2), ("K9", 2), ("K15", 1)]
 
 
 def hx(s: str) -> str:
@@ -120,7 +120,7 @@ def truly_succeeded(plan: str, attempt: int) -> bool:
         return True
     if plan.startswith("N"):
         return attempt >= int(plan[1:].split(",")[0])
-    return False        # F<c>, W<c>, O
+    return False        # F<c>, W<c>, K<signal>, O
 
 
 def oracle(ctx, scen, res):
@@ -168,6 +168,17 @@ def oracle(ctx, scen, res):
             last_tag[j] = r["tag"]
         cache = {j: tuple(v) for j, v in rec["cache"].items()}
         attempts = dict(rec["attempts"])
+        # what was executed is the input prepared for THIS call (its arguments), and its record says how it really ended
+        for j in sorted(ex):
+            plan, att = scen["plans"].get(j, "S"), attempts.get(j, 0)
+            want_payload = f"{j}:{r['tag']}:{att}"
+            if j in cache and cache[j][1] is not None and cache[j][1] != want_payload:
+                ctx.violation("C18:executed-input-not-prepared-with-current-arguments",
+                              f"run {ri}: job {j} was executed with arguments {r['tag']!r} (attempt {att}) but its output {cache[j][1]!r} comes from another input", tag)
+            if j in cache and (cache[j][0] == 0) != truly_succeeded(plan, att):
+                ctx.violation("C18:recorded-exit-code-wrong",
+                              f"run {ri}: job {j} (plan {plan}, attempt {att}) {'succeeded' if truly_succeeded(plan, att) else 'did not succeed'} "
+                              f"but its cache file records exit code {cache[j][0]}", tag)
         # destination
         for k, v in dest.items():
             if rec["dest"].get(k) != v:
@@ -204,7 +215,7 @@ def load_corpus():
 
 def run(ctx):
     ctx.rule = ("histories of 2..4 jobmap runs over 3..5 source items; single jobs (MoleculeLibrary) or vectorised jobs with 1..3 "
-                "sub-jobs per item (ConformerLibrary); per-job plans S / F3 / W4 (file written, then exit 4) / N2,5 / N3,2 (succeed from "
+                "sub-jobs per item (ConformerLibrary); per-job plans S / F3 / W4 (file written, then exit 4) / K9, K15 (file written, then killed by that signal) / N2,5 / N3,2 (succeed from "
                 "the n-th attempt) / O (return file omitted); destinations pre-populated with source keys and destination-only keys; "
                 "argument tag changed between runs with probability 1/4, non-strict hash check 1/8, the destination replaced by a new empty "
                 "one (cache directory kept) before a later run with probability 1/3 (single) / 1/6 (vectorised). Non-trivial: some job does not "
@@ -217,7 +228,7 @@ def run(ctx):
     ]
     ctx.proof(props=["Molli.Props.C18"], gen=[])
     corpus = [c for c in load_corpus() if c.get("section") == "history"]
-    n = 16 if ctx.quick() else 120
+    n = 12 if ctx.quick() else 120
     scens = corpus + [gen_history(ctx.rng, ctx.quick()) for _ in range(n)]
     workers = 6 if ctx.quick() else 8
     results = [None] * len(scens)
